@@ -155,7 +155,7 @@ def room_linear(spec, reference: Dict[str, float], delta, epsilon, knocked=()):
     return _room(spec, reference, delta, epsilon, knocked, binary=None)
 
 
-def _room(spec, reference, delta, epsilon, knocked, binary):
+def _room(spec, reference, delta, epsilon, knocked, binary, slack=0):
     rids = [r["id"] for r in spec["rxns"]]
     n = len(rids)
     lp = LP(2 * n)
@@ -164,8 +164,8 @@ def _room(spec, reference, delta, epsilon, knocked, binary):
         lb, ub = (0, 0) if r["id"] in knocked else (r["lb"], r["ub"])
         lp.lb[j], lp.ub[j] = frac(lb), frac(ub)
         w = F(reference[r["id"]])
-        wu = w + frac(delta) * abs(w) + frac(epsilon)
-        wl = w - frac(delta) * abs(w) - frac(epsilon)
+        wu = w + frac(delta) * abs(w) + frac(epsilon) + frac(slack)
+        wl = w - frac(delta) * abs(w) - frac(epsilon) - frac(slack)
         if binary is None:
             lp.lb[n + j], lp.ub[n + j] = F(0), F(1)
         else:
@@ -179,15 +179,17 @@ def _room(spec, reference, delta, epsilon, knocked, binary):
     return lp.solve({n + j: F(1) for j in range(n)}, "min")
 
 
-def room_binary(spec, reference, delta, epsilon, knocked=(), max_n=8):
-    """Exact minimum number of significantly changed fluxes by enumeration of y in {0,1}^n (ascending size)."""
+def room_binary(spec, reference, delta, epsilon, knocked=(), max_n=8, slack=0):
+    """Exact minimum number of significantly changed fluxes by enumeration of y in {0,1}^n (ascending size).
+    `slack` widens (>0) or narrows (<0) every band: the band edges are floating-point expressions of the reference
+    fluxes, so a flux sitting exactly on an edge is inside or outside depending on round-off."""
     n = len(spec["rxns"])
     if n > max_n:
         raise OracleError("too many reactions for ROOM enumeration")
     for k in range(n + 1):
         for ones in itertools.combinations(range(n), k):
             y = [1 if j in ones else 0 for j in range(n)]
-            r = _room(spec, reference, delta, epsilon, knocked, binary=y)
+            r = _room(spec, reference, delta, epsilon, knocked, binary=y, slack=slack)
             if r.status == "optimal":
                 return "optimal", k
     return "infeasible", None
